@@ -56,4 +56,16 @@ theorem C08_state_translated (ext : Ext) (m : Mw) (cfg : Option Config) (b : Boo
 
 #print axioms C08_state_translated
 
+
+/-- **C08 (translated validators).** `validatePreflightStatus` and `validateMaxAge` — the two loop-free validators, where the
+integer subtleties live (range test before the `uint8` conversion, `-1` / `0` / default handling) — are translated from
+/repo's config.go on every run (constants evaluated by go/types) and equal the hand-written `Validate.status` /
+`Validate.maxAge` for every integer: same acceptance, same error value with its bounds, same stored value. -/
+theorem C08_validators_translated (x : Int) :
+    Gen.GoSrc.validatePreflightStatus x = (match Validate.status x with | .ok v => (none, v) | .error e => (some e, 0)) ∧
+    Gen.GoSrc.validateMaxAge x = (match Validate.maxAge x with | .ok v => (none, v) | .error e => (some e, [])) :=
+  ⟨Translated.validatePreflightStatus_eq x, Translated.validateMaxAge_eq x⟩
+
+#print axioms C08_validators_translated
+
 end Cors
